@@ -999,6 +999,15 @@ func (g *gen) augments() {
 		a.Body = g.body(mi, am, sc, where, g.p.Depth-1, t.Range(1, 3))
 		if where == KChoice {
 			// shorthand members under an augmented choice: keep to explicit cases and containers
+			if !g.p.NoChoice && t.Chance(1, 4) {
+				// a choice directly under the choice (goyang's grammar has no
+				// choice-in-choice, an augment is the way to get one)
+				lf := func() *Node {
+					return &Node{Kind: KLeaf, Name: g.id("l"), Type: &Type{Ref: Ref{Mod: "", Name: "string"}}}
+				}
+				a.Body = append(a.Body, &Node{Kind: KChoice, Name: g.id("ch"), Kids: []*Node{
+					{Kind: KCase, Name: g.id("cs"), Kids: []*Node{lf()}}, lf()}})
+			}
 		}
 		if late[tg.x] && t.Chance(1, 2) {
 			// something that needs an implicit case of its own
